@@ -417,8 +417,12 @@ def concat_case(draw):
                         labels=st.sampled_from(["S", "NP", "VP"]), pos=st.sampled_from(["NN", "VB", "$,"]), edges=st.sampled_from(["HD", "NK", "--"]))
     a = draw(st.lists(tree, min_size=1, max_size=3))
     b = draw(st.lists(tree, min_size=1, max_size=3))
-    for i, t in enumerate(a + b):
-        t["sid"] = 10 + i
+    # sentence ids are data, not positions: 0 is an id like any other, and B's ids need not continue A's
+    base_a, base_b = draw(st.sampled_from([(10, 13), (10, 13), (0, 3), (5, 0), (20, 7)]))
+    for i, t in enumerate(a):
+        t["sid"] = base_a + i
+    for i, t in enumerate(b):
+        t["sid"] = base_b + i
     job.pop("trees", None)
     return {"job": job, "a": a, "b": b}
 
@@ -690,8 +694,11 @@ def gen_concat_inproc(ctx):
     def cases(draw):
         a = draw(st.lists(tree, min_size=1, max_size=4))
         b = draw(st.lists(tree, min_size=1, max_size=4))
-        for i, t in enumerate(a + b):
-            t["sid"] = 10 + i
+        base_a, base_b = draw(st.sampled_from([(10, 14), (10, 14), (0, 4), (5, 0), (20, 7)]))
+        for i, t in enumerate(a):
+            t["sid"] = base_a + i
+        for i, t in enumerate(b):
+            t["sid"] = base_b + i
         trans, params = draw(st.sampled_from([(["filter_by_length"], None), (["filter_by_length"], None), ([], []), (["root_attach"], []),
                                                (["negra_mark_heads", "boyd_split", "raising"], []), (["punctuation_delete"], ["quiet"]),
                                                (["add_topnode", "filter_by_length"], None)]))
